@@ -120,6 +120,9 @@ func (e *Enc) siteLabel(st *Site) string {
 	if st.Label != "" {
 		return st.Label
 	}
+	if st.Nth >= 0 {
+		return fmt.Sprintf("%s:%s#%d", st.Kind, st.Target, st.Nth)
+	}
 	return st.Kind + ":" + st.Target
 }
 
@@ -131,6 +134,13 @@ func (e *Enc) markSiteHit(fr *Frame) {
 }
 
 func (e *Enc) assertSite(fr *Frame, st *Site, ctx *ExprCtx) {
+	if st.Nth >= 0 {
+		k := e.siteSeen[st]
+		e.siteSeen[st] = k + 1
+		if k != st.Nth {
+			return
+		}
+	}
 	e.siteHits[st]++
 	g := e.safeBool(ctx, st.Assert, "site "+e.siteLabel(st))
 	e.addObligation("site", e.siteLabel(st), fr.curReach, g, st.Assert.Text)
